@@ -117,6 +117,11 @@ def run(beh, variant=0):
                 fgates[(k, f)] = loop.create_future()
             return fgates[(k, f)]
 
+        # gamma: every failure of the subscription - whatever event, whatever field - raises ONE exception object (a module level
+        # constant of the application); b then fails with it instead of returning null for its non-null type (same field error)
+        shared_err = ResolverError("shared failure") if (setup in ("ok-sync", "ok-async") and variant % 2 == 0) else None
+        held = []
+
         async def res_a(root, ctx, info):
             await fgate(root["k"], "a")
             o = root["e"]["a"]
@@ -125,11 +130,13 @@ def run(beh, variant=0):
             if o == "null":
                 return None
             if o == "err":
-                raise ResolverError("a failed for event %d" % root["k"])
+                raise shared_err or ResolverError("a failed for event %d" % root["k"])
             raise Crash("crash in event %d" % root["k"])
 
         async def res_b(root, ctx, info):
             await fgate(root["k"], "b")
+            if root["e"]["b"] != "val" and shared_err is not None:
+                raise shared_err
             return 20 + root["k"] if root["e"]["b"] == "val" else None
 
         def res_x(root, ctx, info, arg):
@@ -242,12 +249,19 @@ def run(beh, variant=0):
                 if t.exception() is not None:
                     return div + [("sub/pull-raises/%s" % type(t.exception()).__name__, {"event": k, "error": repr(t.exception())})]
                 res = t.result()
+                held.append((k, res, _errdump(res)))
                 d = exp["data"]
                 xdata = {rkey: {"a": (10 + k) if d["a"] == "val" else None, "b": (20 + k) if d["b"] == "val" else None, "x": d["x"] if x_expected is None else x_expected}}
                 got = _plain(res.data)
                 if got != xdata:
                     what = ("x" if x_expected is None else "x-from-variable") if ((got or {}).get(rkey) or {}).get("x") != xdata[rkey]["x"] else "ab"
                     div.append(("sub/data/%s" % what, {"event": k, "expected": xdata, "got": got}))
+                for e_ in (res.errors or []):
+                    d_ = e_.to_dict()
+                    for loc in d_.get("locations") or []:
+                        line = text.split("\n")[loc["line"] - 1] if 0 < loc.get("line", 0) <= len(text.split("\n")) else ""
+                        if d_.get("path") and not line[loc.get("column", 0) - 1:].startswith(str(d_["path"][-1])):
+                            div.append(("sub/error-location-not-at-its-field", {"event": k, "error": d_, "query": text}))
                 xerr = sorted((rkey, ff) for ff in exp["errs"])
                 gerr = sorted(tuple(e.path) if getattr(e, "path", None) else ("?",) for e in (res.errors or []))
                 if gerr != xerr:
@@ -273,6 +287,10 @@ def run(beh, variant=0):
             for pj, t in tasks.items():
                 if t.done() and pj > allowed:
                     return div + [("sub/result-ready-early", {"pull": pj, "after": step})]
+            # results that were handed out stay what they were, whatever later events do
+            for hk, hres, hdump in held:
+                if _errdump(hres) != hdump:
+                    return div + [("sub/delivered-result-changes-later", {"event": hk, "when_delivered": hdump, "now": _errdump(hres), "after": step})]
         return div
     finally:
         try:
@@ -282,6 +300,11 @@ def run(beh, variant=0):
         except Exception:
             pass
         loop.close()
+
+
+def _errdump(res):
+    import json
+    return json.dumps([e.to_dict() for e in (res.errors or [])], sort_keys=True, default=str)
 
 
 def _plain(v):
